@@ -93,6 +93,8 @@ def update_namespaces(
             else:
                 namespaces[name] = [curr_ns, *other_ns]
         elif isinstance(other_ns, str):
-            namespaces[name].append(other_ns)  # type:ignore[union-attr]
+            # Do not modify the list in place: it may be shared with other namespaces
+            # (the namespaces of a copied grammar are shallow copies).
+            namespaces[name] = [*curr_ns, other_ns]
         else:
-            namespaces[name].extend(other_ns)  # type:ignore[union-attr]
+            namespaces[name] = [*curr_ns, *other_ns]
